@@ -14,7 +14,7 @@ consults are split on).  No feasibility reasoning beyond this is attempted: a we
 only make the comparison stricter, never laxer.
 """
 import re, struct
-from .terms import mk, tag, Node
+from .terms import mk, tag, Node, all_nodes
 from . import norm, vg
 
 REL4 = ("lt", "eq", "gt", "un")
@@ -84,8 +84,31 @@ def ordering_const(v):
 class Env:
     def __init__(self):
         self.val = {}
+        self.int_ty = {}      # integer type of a term, read off the comparisons of the trees being compared (shared, not copied)
     def copy(self):
-        e = Env(); e.val = dict(self.val); return e
+        e = Env(); e.val = dict(self.val); e.int_ty = self.int_ty; return e
+
+def collect_int_types(tree, acc):
+    """term -> integer type, from the integer comparisons and arithmetic in the conditions of a tree"""
+    def visit(c):
+        for n in all_nodes(c):
+            if tag(n) == "cmp" and n[2] in vg.INT_BITS:
+                acc.setdefault(n[3], n[2]); acc.setdefault(n[4], n[2])
+            elif tag(n) == "i" and n[2] in vg.INT_BITS:
+                acc.setdefault(n, n[2])
+            elif tag(n) == "cast" and n[3] in vg.INT_BITS:
+                acc.setdefault(n, n[3])
+    k = tree[0]
+    if k == "if":
+        visit(tree[1]); collect_int_types(tree[2], acc); collect_int_types(tree[3], acc)
+    elif k == "switch":
+        visit(tree[1])
+        for _, t in tree[2]:
+            collect_int_types(t, acc)
+        collect_int_types(tree[3], acc)
+    elif k == "rel":
+        for t in tree[4].values():
+            collect_int_types(t, acc)
 
 def rel_var(a, b, kind):
     """canonical variable and whether operands were swapped"""
@@ -104,6 +127,17 @@ def get_rel(env, a, b, kind, domain):
             if rh != "eq":
                 return rh
             return get_rel(env, mk("field", a, 1), mk("field", b, 1), "f64", REL4)
+    if kind in vg.INT_BITS:
+        # x + c ? k  is  x ? k - c  (the additions are overflow-checked: the form rules read on as if the checks pass, RD / the
+        # totality rules see to it that they do)
+        for x_, k_, flip_ in ((a, b, False), (b, a, True)):
+            if tag(x_) == "i" and x_[1] in ("add", "sub") and x_[2] == kind and tag(k_) == "const" and (tag(x_[4]) == "const" or (x_[1] == "add" and tag(x_[3]) == "const")):
+                inner, c_ = (x_[3], x_[4]) if tag(x_[4]) == "const" else (x_[4], x_[3])
+                cv = vg.to_signed(kind, c_[2]) * (1 if x_[1] == "add" else -1)
+                nk = vg.to_signed(kind, k_[2]) - cv
+                if vg.in_range(kind, nk):
+                    r_ = get_rel(env, inner, mk("const", kind, vg.from_signed(kind, nk)), kind, domain)
+                    return FLIP[r_] if flip_ else r_
     if kind in ("PartialOrd<TwoFloat,f64>", "PartialOrd<f64,TwoFloat>"):
         # the mixed comparison compares the high word with the number and then the low word with zero (C06 / R12c)
         x, c = (a, b) if kind == "PartialOrd<TwoFloat,f64>" else (b, a)
@@ -338,8 +372,19 @@ def eval_switch(c, env, listed):
                 k = pcmp_kind(y[1])
                 r = get_rel(env, y[2], y[3], k, REL4)
                 return {"lt": 255, "eq": 0, "gt": 1, "un": "other"}[r]
+    ity = env.int_ty.get(c)
+    if ity is not None and t not in ("discr", "param") and all(isinstance(x, int) for x in listed):
+        # an integer term switched on: its value is what its relations with the listed constants say (`match i { 0 => .. }` and
+        # `if i == 0 { .. }` are the same test)
+        mask = (1 << vg.INT_BITS[ity]) - 1
+        for x in sorted(listed):
+            if get_rel(env, c, mk("const", ity, x & mask), ity, REL3) == "eq":
+                return x
+        return "other"
     v = ("sw", c)
     if v not in env.val:
+        if t == "discr" and tag(c[1]) == "call" and c[1][1] == "core::f64::<impl f64>::classify":
+            raise Undetermined(v, (0, 1, 2, 3, 4))      # FpCategory has exactly these five variants
         raise Undetermined(v, tuple(sorted(listed)) + ("other",))
     return env.val[v]
 
@@ -463,6 +508,8 @@ def equivalent(t1, t2, leaf_eq=default_leaf_eq, budget=200000, assume=None):
     for k, v in switch_values(t2).items():
         listed.setdefault(k, set()).update(v)
     count = [0]
+    root = Env()
+    collect_int_types(t1, root.int_ty); collect_int_types(t2, root.int_ty)
     def walk(env):
         count[0] += 1
         if count[0] > budget:
@@ -484,7 +531,7 @@ def equivalent(t1, t2, leaf_eq=default_leaf_eq, budget=200000, assume=None):
         if not leaf_eq(l1, l2):
             return Mismatch(env, l1, l2)
         return None
-    return walk(Env())
+    return walk(root)
 
 def all_outcomes(tree, assume=None, budget=200000):
     """yield (env, leaf) for every assignment class the tree distinguishes"""
